@@ -502,6 +502,13 @@ class Repo:
                             # client files are call-site evidence only
                             continue
 
+    def add_module(self, fullname: str, path: str) -> Module:
+        """Parse an extra file as if it were a module of the package (positive controls)."""
+        m = Module(self, fullname, path, "control")
+        m.relpath = path
+        self.modules[fullname] = m
+        return m
+
     def mod(self, short: str) -> Module:
         full = short if short.startswith(PKG) else f"{PKG}.{short}"
         if full not in self.modules:
@@ -509,7 +516,7 @@ class Repo:
         return self.modules[full]
 
     def package_modules(self) -> List[Module]:
-        return [m for m in self.modules.values()]
+        return [m for m in self.modules.values() if m.role == "package"]
 
     def func(self, qual: str) -> FuncInfo:
         m, f = qual.split(".", 1)
@@ -517,13 +524,15 @@ class Repo:
 
     def all_functions(self) -> List[FuncInfo]:
         out = []
-        for m in self.modules.values():
+        for m in self.package_modules():
             out.extend(m.all_functions)
         return out
 
     def digest(self) -> str:
         h = hashlib.sha256()
         for k in sorted(self.modules):
+            if self.modules[k].role != "package":
+                continue
             h.update(k.encode())
             h.update(self.modules[k].digest.encode())
         return h.hexdigest()[:16]
